@@ -78,6 +78,8 @@ pub struct SctlModel<T> {
     pub quits: Ghost<bool>,
     /// unit-specific ghost log (e.g. the attempt numbers of retry's resubscriptions); no StreamController method touches it
     pub aux: Ghost<Seq<int>>,
+    /// serial the next `new_observer` will hand out (serials are never reused: every registered serial is below it)
+    pub next_serial: Ghost<int>,
 }
 
 /// an Observable value held by an operator (only its identity matters to the contracts)
@@ -93,6 +95,7 @@ impl<T> SctlModel<T> {
     pub open spec fn wf(&self) -> bool {
         &&& (!self.sub@ ==> self.ups@ =~= Set::<int>::empty())
         &&& (self.sub@ ==> !ended(self.out@))
+        &&& (forall|k: int| self.ups@.contains(k) ==> k < self.next_serial@)
     }
 
     pub open spec fn dead_after(&self, pre: &SctlModel<T>) -> bool {
@@ -101,6 +104,7 @@ impl<T> SctlModel<T> {
         &&& self.ups@ =~= Set::<int>::empty()
         &&& self.quits@ == pre.quits@
         &&& self.aux@ == pre.aux@
+        &&& self.next_serial@ == pre.next_serial@
     }
 
     #[verifier::external_body]
@@ -115,6 +119,7 @@ impl<T> SctlModel<T> {
             final(self).wf(),
             final(self).quits@ == old(self).quits@,
             final(self).aux@ == old(self).aux@,
+            final(self).next_serial@ == old(self).next_serial@,
             old(self).sub@ ==> final(self).out@ == old(self).out@.push(Ev::N(x)),
             old(self).sub@ && !old(self).quits@ ==> final(self).sub@ && final(self).ups@ == old(self).ups@,
             old(self).sub@ && final(self).sub@ ==> final(self).ups@ == old(self).ups@,
@@ -132,6 +137,7 @@ impl<T> SctlModel<T> {
             final(self).ups@ =~= Set::<int>::empty(),
             final(self).quits@ == old(self).quits@,
             final(self).aux@ == old(self).aux@,
+            final(self).next_serial@ == old(self).next_serial@,
     { unimplemented!() }
 
     #[verifier::external_body]
@@ -141,6 +147,7 @@ impl<T> SctlModel<T> {
             final(self).wf(),
             final(self).quits@ == old(self).quits@,
             final(self).aux@ == old(self).aux@,
+            final(self).next_serial@ == old(self).next_serial@,
             old(self).sub@ && old(self).ups@.remove(*serial as int) =~= Set::<int>::empty() ==> {
                 &&& final(self).out@ == old(self).out@.push(Ev::C)
                 &&& !final(self).sub@
@@ -165,6 +172,7 @@ impl<T> SctlModel<T> {
             final(self).ups@ =~= Set::<int>::empty(),
             final(self).quits@ == old(self).quits@,
             final(self).aux@ == old(self).aux@,
+            final(self).next_serial@ == old(self).next_serial@,
     { unimplemented!() }
 
     #[verifier::external_body]
@@ -177,6 +185,7 @@ impl<T> SctlModel<T> {
             final(self).ups@ =~= old(self).ups@.remove(*serial as int),
             final(self).quits@ == old(self).quits@,
             final(self).aux@ == old(self).aux@,
+            final(self).next_serial@ == old(self).next_serial@,
     { unimplemented!() }
 
     /// `E.inner_subscribe(self.new_observer(a, b, c))` inside a handler (rule R7'): a fresh upstream observer (serial not used
@@ -189,6 +198,9 @@ impl<T> SctlModel<T> {
         ensures
             final(self).wf(),
             final(self).aux@ == old(self).aux@.push(o.id as int),
+            final(self).next_serial@ > old(self).next_serial@,
+            // only serials handed out from now on can be new; everything registered before is either still there or gone
+            forall|k: int| final(self).ups@.contains(k) && k < old(self).next_serial@ ==> old(self).ups@.contains(k),
             old(self).out@.is_prefix_of(final(self).out@),
             final(self).quits@ == old(self).quits@,
             !old(self).sub@ ==> final(self).out@ == old(self).out@ && !final(self).sub@,
@@ -204,6 +216,7 @@ impl<T> SctlModel<T> {
             final(self).ups@ =~= Set::<int>::empty(),
             final(self).quits@ == old(self).quits@,
             final(self).aux@ == old(self).aux@,
+            final(self).next_serial@ == old(self).next_serial@,
     { unimplemented!() }
 }
 
